@@ -1,4 +1,5 @@
 import ErbiumModel.Model.DnsRelay
+import ErbiumModel.Lemmas.DnsMessage
 /-! # C03 — DNS answers relayed to clients are faithful to what the upstream server said -/
 namespace Erbium.Props.C03
 open Erbium Erbium.DnsWire Erbium.DnsRelay
@@ -49,5 +50,18 @@ example : (createInReply
       bufsize := 512, ednsVer := none, ednsDo := false, qdomain := [[97]], qclass := 1, qtype := 1, answer := [],
       nameserver := [⟨[], 1, 6, 60, .soa [[110]] [[114]] 1 2 3 4 5⟩], additional := [], edns := none } [] []).nameserver.length = 1 := by
   decide
+
+/-- **C03 (on the wire).** What the client decodes from the bytes it receives is the reply that was assembled:
+    whenever the reply to `q` built from the upstream's `r` is of the decoder's shape and is written completely,
+    decoding the wire gives back that reply — so, with `C03_relay_faithful`, the client's own id and question and the
+    upstream's rcode and three sections, record for record, compressed names included. -/
+theorem C03_wire_faithful (q r : Pkt) (ip ck : Bytes) (size : Nat) (wire : Bytes)
+    (hw : WfPkt (createInReply q r ip ck)) (hc : Complete (createInReply q r ip ck) size wire) (hsz : wire.length < 65536) :
+    ∃ c, parse wire = .ok c ∧ c.qid = q.qid ∧ c.qdomain = q.qdomain ∧ c.qtype = q.qtype ∧ c.qclass = q.qclass ∧
+      c.rcode = r.rcode ∧ c.answer = r.answer ∧ c.nameserver = r.nameserver ∧ c.additional = r.additional := by
+  have hf := C03_relay_faithful q r ip ck
+  simp only at hf
+  exact ⟨_, message_roundtrip _ hw size wire hc hsz, hf.1, hf.2.1, hf.2.2.2.1, hf.2.2.1, hf.2.2.2.2.2.1, hf.2.2.2.2.2.2.1,
+    hf.2.2.2.2.2.2.2.1, hf.2.2.2.2.2.2.2.2⟩
 
 end Erbium.Props.C03
